@@ -657,7 +657,9 @@ class World:
                     model.broken = True
                 elif sent[i] != msg or type(sent[i]) is not type(msg):
                     if not model.broken:
-                        self.violation(prop, "ordered:not-a-prefix:" + self._classify(sent, got, msg),
+                        why = ":id-reused-while-the-old-channel's-stream-reset-was-incomplete" \
+                            if getattr(model, "reused_early", False) else ""
+                        self.violation(prop, "ordered:not-a-prefix:" + self._classify(sent, got, msg) + why,
                                        "tag=%s dir=%s>%s index=%d want=%s got=%s" % (
                                            model.tag, peer, side, i, short(sent[i]), short(msg)))
                     model.broken = True
@@ -952,9 +954,21 @@ class World:
             return
         spec = dict(old.spec, tag=op["newtag"], negotiated=True, id=cid, label="reuse", protocol="",
                     maxRetransmits=None, maxPacketLifeTime=None, ordered=True, side=op["side"])
+        # both ends report the old channel closed; is the stream reset behind it complete too?  (diagnosis only:
+        # an endpoint whose own reset of the stream is still queued or unanswered - known finding F20's family)
+        early = False
+        for s in "AB":
+            t = self.sctp[s]
+            req = getattr(t, "_reconfig_request", None)
+            if cid in getattr(t, "_reconfig_queue", ()) or (req is not None and cid in getattr(req, "streams", ())):
+                early = True
         self._op_create(dict(spec, op="create"))
         self._op_create_peer({"tag": op["newtag"], "side": "B" if op["side"] == "A" else "A"})
+        if op["newtag"] in self.chans:
+            self.chans[op["newtag"]].reused_early = early
         self.probes["id_reused_during_faults"] += 1
+        if early:
+            self.probes["id_reused_while_reset_incomplete"] += 1
 
     def id_in_use(self, cid, but=None):
         """Some other channel (either end) currently holds this id and is not closed: an application
